@@ -854,7 +854,12 @@ def check_all(st, op, touched=(), wrote=None):
         cur = _snap(st, s)
         if isinstance(cur, Exception):
             if s.kind == 'mem':
-                raise HarnessError('in-memory slot unreadable: %r' % cur)
+                # it was readable when its model was taken: an operation broke it
+                raise Violation(
+                    'in-memory-file-broken',
+                    'slot %d (%s, made by %s) can no longer be read after %s: %s: %s' % (
+                        s.id, _kindsig(s), s.via, opname, type(cur).__name__, cur),
+                    sig={'op': opname, 'error': type(cur).__name__})
             raise Violation(
                 'other-open-file-invalidated',
                 'slot %d (%s, %s) can no longer be read after %s: %s: %s' % (
